@@ -59,6 +59,10 @@ fn spawn(kind: &str, extra: &[String]) -> Worker {
 
 // Run all items through `nworkers` supervised workers; answers in input order.
 pub fn run(kind: &str, extra: &[String], items: &[String], timeout: Duration) -> Vec<Answer> {
+    run_batched(kind, extra, items, timeout, 128)
+}
+
+pub fn run_batched(kind: &str, extra: &[String], items: &[String], timeout: Duration, batch: usize) -> Vec<Answer> {
     let n = crate::util::nthreads().min(items.len().max(1));
     let next = AtomicUsize::new(0);
     let out: Mutex<Vec<(usize, Answer)>> = Mutex::new(Vec::with_capacity(items.len()));
@@ -67,13 +71,13 @@ pub fn run(kind: &str, extra: &[String], items: &[String], timeout: Duration) ->
             s.spawn(|| {
                 let mut w = spawn(kind, extra);
                 let mut local = vec![];
-                const BATCH: usize = 128;
+                let batch_size: usize = batch;
                 loop {
-                    let i0 = next.fetch_add(BATCH, Ordering::Relaxed);
+                    let i0 = next.fetch_add(batch_size, Ordering::Relaxed);
                     if i0 >= items.len() {
                         break;
                     }
-                    let hi = (i0 + BATCH).min(items.len());
+                    let hi = (i0 + batch_size).min(items.len());
                     let mut i = i0;
                     // send the rest of the batch, read the answers in order; the case being worked on when the
                     // worker dies is the crasher, the remainder is sent again to a fresh worker
